@@ -9,9 +9,16 @@ package directive
 
 // Uniform contract of the include tracer attached to every directive. The three implementations
 // (nopIncludeTracer, scanner.emptyIncludeTracer, scanner.directiveIncludeTracer) only append to the error's trace.
+// gTracerTag / gTracerRef (ghost): WHICH tracer the trace of an error was taken from. An error located at a directive must
+// carry the trace of that directive - recorded when the directive was read - not the trace of a neighbour (C07-8: an error
+// placed at the parent's keyword with the child's trace).
+//@ ghost field jerr.JApiError.gTracerTag int
+//@ ghost field jerr.JApiError.gTracerRef int
 //@ iface IncludeTracer.AddIncludeTraceToError(t, je)
 //@   property C07
 //@   modifies je.includeTrace
+//@   ghost je.gTracerTag := t.tag
+//@   ghost je.gTracerRef := t.ref
 //@   ensures imp(je != nil, len(je.includeTrace) >= old(len(je.includeTrace))
 //@       && (je.includeTrace.arr == old(je.includeTrace.arr) || fresh(je.includeTrace.arr)))
 
